@@ -47,7 +47,7 @@ func (e *Engine) load(patterns []string) error {
 	var errs []string
 	packages.Visit(pkgs, nil, func(p *packages.Package) {
 		for _, e := range p.Errors {
-			if strings.HasPrefix(p.PkgPath, repoModule) {
+			if inRepoPath(p.PkgPath) {
 				errs = append(errs, e.Error())
 			}
 		}
@@ -77,7 +77,7 @@ func (e *Engine) load(patterns []string) error {
 	sort.Strings(paths)
 	for _, path := range paths {
 		p := e.pkgs[path]
-		if !strings.HasPrefix(path, repoModule) {
+		if !inRepoPath(path) {
 			continue
 		}
 		for _, f := range p.GoFiles {
@@ -208,7 +208,7 @@ func (e *Engine) verifyContract(c *Contract) *FuncResult {
 }
 
 func shortKey(k string) string {
-	return strings.TrimPrefix(k, repoModule+"/")
+	return strings.TrimPrefix(strings.TrimPrefix(k, repoModule+"/"), gnoModule+"/")
 }
 
 func (e *Engine) verifyFunc(vc *VC, fn *ssa.Function, c *Contract) {
@@ -291,9 +291,9 @@ func (e *Engine) verifyFunc(vc *VC, fn *ssa.Function, c *Contract) {
 		if c.PanicsIff != nil {
 			vc.oblige(exit, "nopanic", "normal return implies !( "+c.PanicsIff.Src+" )", not(allowed))
 		}
-		if c.HasAssigns {
-			e.frameObligations(vc, fx, sc, c, entry, exit)
-		}
+		// the frame is always checked: a contract without an `assigns` clause assigns
+		// nothing that existed at entry (which is also what callers assume of it)
+		e.frameObligations(vc, fx, sc, c, entry, exit)
 		vc.cover(exit, "reach-exit", "the normal exit is reachable")
 	} else if len(c.Ensures) > 0 {
 		vc.errs = append(vc.errs, "no normal exit reachable but ensures clauses given")
@@ -317,6 +317,14 @@ func (e *Engine) frameObligations(vc *VC, fx *fexec, sc *SpecCtx, c *Contract, e
 			allowed[comp] = append(allowed[comp], base.T)
 		case "idx":
 			s := sc.eval(a.X.Args[0])
+			if mt, isMap := vc.under(s.Ty).(*types.Map); isMap {
+				// m[*]: all entries of map m
+				pc, vcmp, _, lc, _ := vc.mapComps(mt)
+				for _, comp := range []string{pc, vcmp, lc} {
+					allowed[comp] = append(allowed[comp], s.T)
+				}
+				continue
+			}
 			comp, _ := vc.elemComp(vc.under(s.Ty).(*types.Slice).Elem())
 			allowed[comp] = append(allowed[comp], sArr(s.T))
 		}
